@@ -427,8 +427,16 @@ int ftruncate(int fd, off_t len) {
 }
 int ftruncate64(int fd, off_t len) { return ftruncate(fd, len); }
 
+/* vshim_mmap_fail(n): the n-th following shared mapping of a descriptor by this process fails with ENOMEM (0 = off) */
+static volatile long mmap_fail_at = 0;
+void vshim_mmap_fail(long n) { mmap_fail_at = n; }
+
 void *mmap(void *addr, size_t len, int prot, int flags, int fd, off_t off) {
     init_once(); RESOLVE(mmap);
+    if (fd >= 0 && (flags & MAP_SHARED) && mmap_fail_at > 0 && __sync_sub_and_fetch(&mmap_fail_at, 1) == 0) {
+        logf_("mmap fd=%d len=%zu res=-1 injected=1", fd, len);
+        errno = ENOMEM; return MAP_FAILED;
+    }
     void *r = r_mmap(addr, len, prot, flags, fd, off);
     if (is_tracked(fd) && tracked[fd] == 2) logf_("mmap fd=%d len=%zu res=%d addr=%p", fd, len, r == MAP_FAILED ? -1 : 0, r);
     return r;
